@@ -8,6 +8,7 @@ import (
 	"testing"
 	"time"
 
+	"github.com/Breeze0806/gobinlog"
 	"pgregory.net/rapid"
 
 	"verif/fakemaster"
@@ -27,16 +28,27 @@ type HandshakeCase struct {
 	Cuts     []int
 	// Deadlines: bit i set = attempt i runs under a context with a (far) deadline
 	Deadlines int `json:",omitempty"`
+	// Rewind[i] (attempts 1..): -1 nothing; k >= 0: before attempt i the caller puts the streamer back with
+	// SetBinlogPosition to the end label of its k-th accepted transaction (k = 0: the start position),
+	// clamped to what has been accepted; that attempt must ask for exactly that position
+	Rewind []int `json:",omitempty"`
+	// CutExtra[i]: attempt i's connection is closed this many packets after the commit event of Cuts[i]
+	// (0: right behind it), i.e. possibly inside the next transaction
+	CutExtra []int `json:",omitempty"`
 }
 
 // cutAfterCommits truncates the script right after the n-th commit event it carries.
-func cutAfterCommits(l *hist.Layout, n int) func([]fakemaster.Step, []int) []fakemaster.Step {
+func cutAfterCommits(l *hist.Layout, n, extra int) func([]fakemaster.Step, []int) []fakemaster.Step {
 	return func(steps []fakemaster.Step, evIdx []int) []fakemaster.Step {
 		seen := 0
 		for i, ev := range evIdx {
 			if ev >= 0 && l.Events[ev].Commit {
 				seen++
 				if seen == n {
+					// up to extra further packets, but never another commit event and never the final EOF
+					for k := 0; k < extra && i+1 < len(steps)-1 && i+1 < len(evIdx) && !(evIdx[i+1] >= 0 && l.Events[evIdx[i+1]].Commit); k++ {
+						i++
+					}
 					steps = steps[:i+1]
 					steps[i].Then = fakemaster.CloseFIN
 					return steps
@@ -115,6 +127,19 @@ func checkC07(c *HandshakeCase) error {
 	for i := 0; i <= len(c.Cuts); i++ {
 		at := attempt{l: l}
 		connectFails := false
+		if i > 0 && i < len(c.Rewind) && c.Rewind[i] >= 0 {
+			k := c.Rewind[i]
+			if k > accepted {
+				k = accepted
+			}
+			to := start
+			if k > 0 {
+				to = exp[k-1].Next
+			}
+			ss.s.SetBinlogPosition(gobinlog.Position{Filename: to.File, Offset: to.Off})
+			allowed = map[hist.Pos]bool{to: true}
+			accepted = k
+		}
 		if i < len(c.Cuts) {
 			switch {
 			case c.Cuts[i] == -1: // the master refuses the session right at the greeting
@@ -123,8 +148,17 @@ func checkC07(c *HandshakeCase) error {
 			case c.Cuts[i] == -2: // the master rejects the checksum announcement
 				at.plan = &fakemaster.ConnPlan{QueryErr: fakemaster.ErrPacket(1227, "42000", "Access denied")}
 				connectFails = true
+			case c.Cuts[i] == -3: // the session is set up, then the write of the dump command fails on the replica's side
+				disarm := failDumpWrite()
+				defer disarm()
+				at.afterReturn = func(*attemptState) { disarm() }
+				connectFails = true
 			default:
-				at.mutate = cutAfterCommits(l, c.Cuts[i])
+				extra := 0
+				if i < len(c.CutExtra) {
+					extra = c.CutExtra[i]
+				}
+				at.mutate = cutAfterCommits(l, c.Cuts[i], extra)
 			}
 		}
 		if (c.Deadlines>>uint(i))&1 == 1 {
@@ -258,7 +292,14 @@ func TestC07(t *testing.T) {
 		c.Deadlines = rapid.IntRange(0, 15).Draw(rt, "deadline_mask")
 		na := rapid.IntRange(0, 3).Draw(rt, "failed_attempts")
 		for i := 0; i < na; i++ {
-			c.Cuts = append(c.Cuts, rapid.IntRange(-2, 3).Draw(rt, "cut"))
+			c.Cuts = append(c.Cuts, rapid.IntRange(-3, 3).Draw(rt, "cut"))
+			c.CutExtra = append(c.CutExtra, rapid.IntRange(0, 3).Draw(rt, "cut_extra"))
+		}
+		if na > 0 && rapid.IntRange(0, 2).Draw(rt, "rewinds") == 0 {
+			c.Rewind = []int{-1}
+			for i := 1; i <= na; i++ {
+				c.Rewind = append(c.Rewind, rapid.IntRange(-1, 3).Draw(rt, "rewind_to"))
+			}
 		}
 		// a cut of 0 means: close before any commit (use 1-based semantics: 0 -> cut at first commit is skipped)
 		nt := c.ServerID >= 1<<31 || c.H.Base >= 1<<31 || len(c.Cuts) >= 1
@@ -271,6 +312,9 @@ func TestC07(t *testing.T) {
 		}
 		if c.StartAt4 {
 			cls = append(cls, "offset=4")
+		}
+		if len(c.Rewind) > 0 {
+			cls = append(cls, "caller-repositions-between-attempts")
 		}
 		rec.Case(nt, c, cls...)
 		if nt {
